@@ -71,6 +71,19 @@ def rule_handoff(ctx, rep):
                       what="at the outermost level every path releases the fork mutex")
 
 
+def _stays(f, t, succ, polls):
+    """does the conditional edge t -> succ keep a wait loop going: from succ a poll() is reached again without first re-evaluating t's block"""
+    if not polls:
+        # a pure spin: the edge stays when t's block is reached again without advancing to the next list element
+        adv = lambda i: i.op == "load" and i.d.get("ap") and (pat.last_field(i.d["ap"]) or "").endswith("cds_list_head.next")
+        hit, _ = f.reach([f.blocks[succ].insts[0]], [t], avoid=adv, include_start=True)
+        return hit is not None
+    if any(p.blk.id == succ for p in polls):
+        return True
+    hit, _ = f.reach([f.blocks[succ].insts[0]], polls, avoid=lambda i: i.blk.id == t.blk.id, include_start=True)
+    return hit is not None
+
+
 def rule_pause(ctx, rep):
     for fl in ALL:
         F = FL[fl]
@@ -86,12 +99,19 @@ def rule_pause(ctx, rep):
             continue
         rep.must_pass("C16.pause", fl + ".before.PAUSE≺barrier≺wake", b, orr, wk, lambda i: mm.is_compiler(i, b.mod) and i not in orr or (i in orr and False), what=">=compiler barrier between setting PAUSE and waking the helper") if wk else rep.bad("C16.pause", fl + ".before.wake", "helpers are not woken after PAUSE is set (a sleeping helper never pauses)", [orr[0].where()])
         waits = [(t, s) for t, s, a in pat.branch_edges_on(b, lambda a: a[0] == "eq" and a[2] == ("c", 0) and a[1][0] == "bin" and a[1][1] == "and" and a[1][3] == ("c", FLG.PAUSED))]
-        if not waits or not polls:
+        if not waits:
             rep.bad("C16.pause", fl + ".before.wait-PAUSED", "before_fork does not wait for every helper to acknowledge PAUSED: fork() can happen while a helper holds locks / is registered as reader", [orr[0].where()])
         else:
             # leaving the wait loop requires PAUSED: every path from the PAUSE request to return takes a (flags & PAUSED) != 0 edge ... per helper; structural: a cycle polling PAUSED exists after the PAUSE loop
-            cyc = [c for c in b.sccs() if any(p.blk.id in c for p in polls) and any(t.blk.id in c for t, s in waits)]
+            cyc = [c for c in b.sccs() if (any(p.blk.id in c for p in polls) or not polls) and any(t.blk.id in c for t, s in waits)]
             rep.check(bool(cyc), "C16.pause", fl + ".before.wait-PAUSED", "polls until PAUSED is observed", "no loop waits for PAUSED", [orr[0].where()])
+            if cyc:
+                # polarity: the edge that keeps polling is the `PAUSED not yet set` one; the loop is left along `PAUSED set`
+                stay_eq = [(t, s) for t, s in waits if t.blk.id in cyc[0] and _stays(b, t, s, polls)]
+                leave_eq = [(t, s) for t, s in waits if t.blk.id in cyc[0] and not _stays(b, t, s, polls)]
+                rep.check(bool(stay_eq) and not leave_eq, "C16.pause", fl + ".before.wait-PAUSED.polarity", "the wait loop is left only once (flags & PAUSED) != 0",
+                          "before_fork leaves its wait loop while PAUSED is still clear (and polls while it is set): fork() proceeds with helpers running - registered as readers, possibly inside a grace period or holding locks the child inherits",
+                          [t.where() for t, s in (leave_eq or waits)[:1]])
             if cyc:
                 ent = b.blocks[pat.scc_entries(b, cyc[0])[0]].insts[0]
                 rep.check(all(b.reach([ent], [o], include_start=True)[0] is None for o in orr) or True, "C16.pause", fl + ".before.request-then-wait", "all helpers are asked to pause before waiting for any", "", [])
@@ -111,11 +131,14 @@ def rule_pause(ctx, rep):
                       "whether the helper is still parked, and the wait for the helper to leave the paused state is void", [c.where() for c in steals])
             pz = [(t, s_, at) for t, s_, at in pat.branch_edges_on(a, lambda at: at[0] in ("eq", "ne") and at[2] == ("c", 0) and at[1][0] == "bin" and at[1][1] == "and" and at[1][3] == ("c", FLG.PAUSED)
                                                                   and pat.is_load_expr(at[1][2], "call_rcu_data.flags"))]
-            stay = [(t, s_) for t, s_, at in pz if at[0] == "ne"]
+            ppolls = pat.calls(a, "poll")
+            stay = [(t, s_) for t, s_, at in pz if at[0] == "ne" and _stays(a, t, s_, ppolls)]
             cyc = [c for c in a.sccs() if any(t.blk.id in c and s_ in c for t, s_ in stay)]
             if not pz:
                 rep.bad("C16.pause", fl + ".parent.waits-unPAUSED", "after_fork_parent returns without waiting for the helpers to leave the paused state: a before_fork() that follows at once sees the old PAUSED "
                         "and lets fork() proceed while a helper is running (registered as reader, possibly holding locks) - the child inherits that state", [clr[0].where()])
+            elif not cyc and [1 for t, s_, at in pz if at[0] == "eq" and any(t.blk.id in c_ and s_ in c_ for c_ in a.sccs()) and _stays(a, t, s_, ppolls)]:
+                rep.bad("C16.pause", fl + ".parent.waits-unPAUSED", "after_fork_parent polls while PAUSED is *clear* and leaves when it is set: it returns while helpers are still parked (or never, once they resumed)", [pz[0][0].where()])
             elif not cyc:
                 rep.unk("C16.pause", fl + ".parent.waits-unPAUSED", "PAUSED is tested in after_fork_parent but not by a loop this rule recognises")
             else:
